@@ -438,8 +438,14 @@ def make_shoc_standard(rng, *, nj=None, ni=None, holes=None, coord_style=None, m
         for i in range(ni):
             if wet[j, i]:
                 node_ok[j:j + 2, i:i + 2] = True
-    gx = numpy.where(node_ok, nx, NAN)
-    gy = numpy.where(node_ok, ny, NAN)
+    # stray nodes: valid coordinates that belong to no complete cell (a model boundary traced one node too far)
+    stray = numpy.zeros_like(node_ok)
+    if holes != 'none' and chance(rng, 0.3):
+        stray = (~node_ok) & (rng.random(node_ok.shape) < 0.3)
+    have = node_ok | stray
+    gx = numpy.where(have, nx, NAN)
+    gy = numpy.where(have, ny, NAN)
+    node_ok = have
     # a face has geometry iff its four nodes exist (a dry face enclosed by wet ones keeps its polygon)
     face_has_geom = node_ok[:-1, :-1] & node_ok[:-1, 1:] & node_ok[1:, 1:] & node_ok[1:, :-1]
     cx = (gx[:-1, :-1] + gx[:-1, 1:] + gx[1:, 1:] + gx[1:, :-1]) / 4
@@ -454,7 +460,7 @@ def make_shoc_standard(rng, *, nj=None, ni=None, holes=None, coord_style=None, m
     }
     m.coord_names = dict(SHOC_COORDS)
     m.coord_values = {'face': (cx, cy), 'left': (lx, ly), 'back': (bx, by), 'node': (gx, gy)}
-    m.encoding = dict(holes=holes, coord_style=coord_style, map=map_kind)
+    m.encoding = dict(holes=holes, coord_style=coord_style, map=map_kind, stray_nodes=int(stray.sum()))
     m.derived_geometry = False
     m.removed = ~face_has_geom
     lcx = (nx[:-1, :-1] + nx[:-1, 1:] + nx[1:, 1:] + nx[1:, :-1]) / 4
